@@ -1,0 +1,14 @@
+//go:build !verif
+
+package badger
+
+import "github.com/dgraph-io/badger/v4/table"
+
+// No-op observation points for the /verif correspondence harness (see verif_hooks_on.go).
+// With the verif tag off these are empty functions that the compiler inlines away.
+
+func verifSubcompact(cd compactDef, hasOverlap bool, discardTs uint64) {}
+
+func verifCompactDone(l int, cd compactDef, newTables []*table.Table) {}
+
+func verifFlushDone(tbl *table.Table) {}
